@@ -140,9 +140,119 @@ def scenario_message_reuse():
     return viol
 
 
+def _df_forests(n):
+    """All ordered forests with exactly n nodes; a node is ("m",) or ("a", children)."""
+    if n == 0:
+        yield ()
+        return
+    for first in range(1, n + 1):
+        for rest in _df_forests(n - first):
+            if first == 1:
+                yield (("m",),) + rest
+            for kids in _df_forests(first - 1):
+                yield (("a", kids),) + rest
+
+
+def _df_sig(node):
+    if node["k"] == "m":
+        return "F" if node["type"] == "eliot:destination_failure" else "m"
+    return "a[%s](%s)" % (node["status"], " ".join(_df_sig(c) for c in node["children"]))
+
+
+def scenario_destination_fault(tier):
+    """FLT, one deviation: while a forest of with-block actions and messages (every ordered forest of up
+    to N nodes) is logged, one of two destinations raises once, at the k-th message, for every k.  The
+    other destination's log must parse to the executed forest plus exactly one
+    eliot:destination_failure message, placed where the failing logging call was made from: next
+    sibling of the message - or of the action whose start / end message it was (an action's start and
+    end messages are written from its parent's context) - and a task of its own at top level."""
+    from eliot import start_action, log_message
+
+    viol = []
+    execs = 0
+    nmax = 4 if tier == "quick" else 5
+
+    def expected(forest, k):
+        """(sorted task signatures) of the forest with F inserted for a fault at emission index k."""
+        counter = [0]
+
+        def walk(nodes, top):
+            out = []
+            for nd in nodes:
+                if nd[0] == "m":
+                    hit = counter[0] == k
+                    counter[0] += 1
+                    out.append("m")
+                    if hit:
+                        out.append("F")
+                else:
+                    hit = counter[0] == k
+                    counter[0] += 1
+                    kids = walk(nd[1], False)
+                    hit = hit or counter[0] == k
+                    counter[0] += 1
+                    out.append("a[succeeded](%s)" % " ".join(kids))
+                    if hit:
+                        out.append("F")
+            return out
+
+        sigs = walk(forest, True)
+        return sorted(sigs), counter[0]
+
+    def execute(forest, k):
+        def go():
+            import io
+
+            buf = io.BytesIO()
+            calls = [0]
+
+            def faulty(message):
+                i = calls[0]
+                calls[0] += 1
+                if i == k:
+                    raise RuntimeError("destination fault at %d" % k)
+
+            progs.eliot.add_destinations(faulty)
+            progs.eliot.to_file(buf)
+
+            def run(nodes):
+                for nd in nodes:
+                    if nd[0] == "m":
+                        log_message(message_type="t:m")
+                    else:
+                        with start_action(action_type="t:a"):
+                            run(nd[1])
+
+            run(forest)
+            return buf.getvalue()
+
+        return progs.world.run_isolated(go)
+
+    for n in range(1, nmax + 1):
+        for forest in _df_forests(n):
+            _, total = expected(forest, -1)
+            for k in range(total):
+                want, _ = expected(forest, k)
+                execs += 1
+                try:
+                    raw = execute(forest, k)
+                    dicts = progs.parse_lines(raw)
+                    tasks = list(progs.Parser.parse_stream(dicts))
+                    got = sorted(_df_sig(progs.from_written(t.root())) for t in tasks)
+                    complete = all(t.is_complete() for t in tasks)
+                except Exception as e:
+                    viol.append(("destination-fault:run-or-parse-raised", {"forest": repr(forest), "k": k, "error": repr(e)[:200]}))
+                    continue
+                if got != want or not complete:
+                    viol.append(("destination-fault:tree-with-failure-report", {"forest": repr(forest), "fault_at_message": k, "got": got, "want": want, "complete": complete}))
+                if len(viol) >= 3:
+                    return viol, execs
+    return viol, execs
+
+
 def units(tier):
     """unit = (n_nodes, max_devs, shape_index, only_exact_devs)"""
-    out = [["scenario", "message-reuse"], ["scenario", "field-named-like-a-type-key"]]
+    out = [["scenario", "message-reuse"], ["scenario", "field-named-like-a-type-key"], ["scenario", "destination-fault", tier]]
     done = {}  # n -> devs already fully covered
     for n_max, devs in BOUNDS(tier)["plans"]:
         for n in range(1, n_max + 1):
@@ -158,7 +268,7 @@ def units(tier):
 
 def cases(unit, tier):
     if unit[0] == "scenario":
-        yield ["scenario", unit[1]]
+        yield ["scenario"] + list(unit[1:])
         return
     n, dlo, dhi, si = unit
     shape = None
@@ -255,6 +365,9 @@ def _norm_ref(r):
 
 
 def run_case(prog):
+    if prog and prog[0] == "scenario" and prog[1] == "destination-fault":
+        v, execs = scenario_destination_fault(prog[2])
+        return Result(outcome=["scenario", prog[1], len(v)], executions=execs, violations=v)
     if prog and prog[0] == "scenario":
         v = scenario_message_reuse() if prog[1] == "message-reuse" else scenario_type_key_fields()
         return Result(outcome=["scenario", prog[1], len(v)], violations=v)
